@@ -169,10 +169,16 @@ def run_case(cls, params, rec):
 		warnings.simplefilter("always")
 		st, val = gen.call(deep_lift_shap, model, X, raw_outputs=True, **kw)
 	if st == "raise":
-		if refs is None and ("shuffle" in repr(val).lower() or
-			"one-hot" in repr(val).lower() or "max()" in repr(val)):
-			rec.refusal(cls, params, repr(val)[:200])
-			return
+		if refs is None:
+			# a refusal when the reference function itself refuses one of
+			# these sequences (nothing to shuffle)
+			for i in range(n):
+				for j in range(ns):
+					stf, _ = gen.call(kw["references"], X[i:i + 1], n=1,
+						random_state=int(params["random_state"]) + j)
+					if stf == "raise":
+						rec.refusal(cls, params, repr(val)[:200])
+						return
 		rec.violation(cls, params, dict(desc, what="deep_lift_shap raised",
 			error=repr(val)[:400]), mech=mech("C04/raised"))
 		return
